@@ -2,7 +2,7 @@
    ociauth transport and the scripted fake network, the environment it induces for the model
    (responses and time stamps are replayed from the observation), and model agreement. *)
 From Coq Require Import String ZArith Bool.
-From OCI Require Export Base.Outcome Model.Auth Model.AuthSpec.
+From OCI Require Export Base.Outcome Model.Auth Model.AuthRedirect Model.AuthSpec.
 
 Record run_case := {
   c_cfg : list (bytes * option config_entry);      (* Config: hosts not listed have the empty entry *)
@@ -11,7 +11,11 @@ Record run_case := {
   c_times : list Z;                                 (* time stamp (us) of every observed event *)
   c_trace : list event;                             (* everything observed, in order *)
   c_untouched : bool;                               (* no caller request differed after RoundTrip *)
-  c_reqs : list (nat * (sexp * sexp))               (* how the harness built each call's scopes *)
+  c_reqs : list (nat * (sexp * sexp));              (* how the harness built each call's scopes *)
+  (* token requests that a token server answered with a Location header: index of the exchange in
+     [c_trace] (whose ESend shows the request and what http.Client.Do returned for it) and the
+     requests that reached the network one by one, the token request itself first *)
+  c_hops : list (nat * list hop)
 }.
 
 Inductive case :=
@@ -136,9 +140,30 @@ Definition parse_agrees (hdr : bytes) (panicked : bool) (o : option (bytes * lis
 Definition run_agrees (c : run_case) : bool :=
   list_eqb event_eqb (trace (env_of c) (c_sched c)) (c_trace c) && c_untouched c.
 
+(* the redirect hops: the model of http.Client (Model/AuthRedirect.v), run against a network that
+   answers as the observed chain was answered, sends exactly the observed requests, and returns
+   what the exchange shows as its answer *)
+Definition wire_eqb (a b : wire) : bool :=
+  msg_eqb (w_msg a) (w_msg b) && beqb (w_host a) (w_host b) && beqb (w_hostport a) (w_hostport b).
+
+Definition chain_agrees (m : msg) (rsp : resp) (chain : list hop) : bool :=
+  match chain with
+  | [] => false
+  | h0 :: _ =>
+      msg_eqb (hp_msg h0) m
+      && (let (r, sent) := client_do (replay chain) m (hp_host h0) (hp_hostport h0) in
+          resp_eqb r rsp && list_eqb wire_eqb (rev sent) (map wire_of chain))
+  end.
+
+Definition hops_agree (c : run_case) : bool :=
+  forallb (fun ic => match nth_error (c_trace c) (fst ic) with
+                     | Some (ESend _ m rsp) => is_tok_msg m && chain_agrees m rsp (snd ic)
+                     | _ => false
+                     end) (c_hops c).
+
 Definition model_agrees (c : case) : bool :=
   match c with
-  | CRun r => run_agrees r
+  | CRun r => run_agrees r && hops_agree r
   | CParse hdr pk o => parse_agrees hdr pk o
   end.
 
@@ -244,6 +269,28 @@ Lemma run_agrees_history c :
 Proof.
   unfold run_agrees. intros H. apply andb_true_iff in H as [H1 H2]. split; [|exact H2].
   apply (list_eqb_true event_eqb event_eqb_true) in H1. rewrite <- H1. unfold trace. apply rev_involutive.
+Qed.
+
+Lemma wire_eqb_true a b : wire_eqb a b = true -> a = b.
+Proof.
+  destruct a as [[m1 h1] p1], b as [[m2 h2] p2]. unfold wire_eqb, w_msg, w_host, w_hostport. cbn. intros H.
+  apply andb_true_iff in H as [H H3]. apply andb_true_iff in H as [H1 H2].
+  apply msg_eqb_true in H1. apply beqb_true in H2, H3. now subst.
+Qed.
+
+(* agreement on a chain: the observed requests are the ones the model of http.Client sends when
+   it is answered as they were *)
+Lemma chain_agrees_sent m rsp chain :
+  chain_agrees m rsp chain = true ->
+  exists h0 rest sent, chain = h0 :: rest /\ hp_msg h0 = m
+    /\ client_do (replay chain) m (hp_host h0) (hp_hostport h0) = (rsp, sent) /\ rev sent = map wire_of chain.
+Proof.
+  unfold chain_agrees. destruct chain as [|h0 rest]; [discriminate|]. intros H.
+  apply andb_true_iff in H as [H1 H2]. apply msg_eqb_true in H1.
+  destruct (client_do (replay (h0 :: rest)) m (hp_host h0) (hp_hostport h0)) as [r sent] eqn:Ed.
+  apply andb_true_iff in H2 as [H2 H3]. apply resp_eqb_true in H2.
+  apply (list_eqb_true wire_eqb wire_eqb_true) in H3. subst r.
+  exists h0, rest, sent. now repeat split.
 Qed.
 
 Definition mismatches_of (ma ok : case -> bool) (cs : list case) : list (N * bool) :=
